@@ -59,6 +59,32 @@ Theorem C06_commit_any_content : forall (t tmp : name) (s : st) (i : ino) (nd : 
 Proof. exact commit_safe_shape. Qed.
 Print Assumptions C06_commit_any_content.
 
+(* Every error exit of commit, in the order the source has now: every call of commit may fail (k = number of active
+   calls that succeed before one fails; a failed call has no effect, commit returns, the caller's Cancel removes the temp
+   file unless the rename already happened). Whichever call fails, the discipline is respected, and nothing is
+   published unless the rename itself succeeded — e.g. when the directory cannot be opened for the later dir-sync, the
+   temp file is never renamed over the target. *)
+Theorem C06_commit_error_exits : forall (t tmp : name) (s : st) (i : ino) (nd : inode) (ch mt : bool) (k : nat),
+  name_eqb tmp t = false -> dlookup (vdir s) tmp = Some i -> ilookup (inodes s) i = Some nd ->
+  let tr := commit_ops_f (mkCfg false ch mt) i tmp t k in
+  safe_from t s tr = true /\
+  (versions t s tr = [] \/ versions t s tr = [Some (synced nd ++ unsynced nd)]) /\
+  (existsb (is_rename_onto t) tr = false -> versions t s tr = []).
+Proof. exact commit_error_exits. Qed.
+Print Assumptions C06_commit_error_exits.
+
+(* AtomicWriteChown with a failure oracle on commit: at every crash point the target holds the complete old or the
+   complete new content; if the rename was not reached, the target is untouched in every crash outcome. *)
+Theorem C06_write_error_exits : forall (t tmp : name) (s0 : st) (old : option bytes) (chunks : list bytes) (ch mt : bool) (k : nat),
+  init_ok t s0 old -> name_eqb tmp t = false ->
+  let tr := write_ops_f (mkCfg false ch mt) (next s0) tmp t chunks k in
+  safe_from t s0 tr = true /\
+  (forall p q, tr = p ++ q -> forall keep cut, In (crash_read (run s0 p) keep cut t) [old; Some (concat chunks)]) /\
+  (existsb (is_rename_onto t) tr = false ->
+   forall p q, tr = p ++ q -> forall keep cut, crash_read (run s0 p) keep cut t = old).
+Proof. exact atomic_write_error_exits. Qed.
+Print Assumptions C06_write_error_exits.
+
 (* AtomicRename in the generated order: rename of a synced file onto the target, then the fsync of its directory *)
 Theorem C06_rename_has_safe_shape : forall (t a : name) (s : st) (i : ino),
   name_eqb a t = false -> dlookup (vdir s) a = Some i -> clean s i = true ->
@@ -100,4 +126,9 @@ Proof. exact ex_init_ok. Qed.
 Example C06_generated_order_example :
   write_ops (mkCfg false false false) 1 ex_tmp ex_t ex_chunks =
   [Creat ex_tmp; Write 1 [110; 101]; Write 1 [119; 33]; Fsync 1; Meta; Rename ex_tmp ex_t; FsyncDir 0].
+Proof. vm_compute. reflexivity. Qed.
+(* the directory cannot be opened (COpenDir fails, k = 0 without chown): create, write, clean up; no rename *)
+Example C06_open_dir_fails_example :
+  write_ops_f (mkCfg false false false) 1 ex_tmp ex_t ex_chunks 0 =
+  [Creat ex_tmp; Write 1 [110; 101]; Write 1 [119; 33]; Unlink ex_tmp; Meta].
 Proof. vm_compute. reflexivity. Qed.
